@@ -4,6 +4,8 @@ import EaselModel.Simd.RealLanes
 import EaselModel.Vec.Real
 import EaselModel.Vec.XReal
 import EaselModel.Vec.Rounded
+import EaselModel.Vec.Kahan
+import EaselModel.Vec.Mat
 /-! # C20 — vector and SIMD numeric kernels compute their definition for every input
 
 Property theorems only (proofs are glue on the lemmas of `Simd/Lemmas.lean`, `Simd/LogExpLemmas.lean`, `Vec/Real.lean`, `Vec/XReal.lean`).
@@ -227,12 +229,24 @@ theorem idot_eq (v w : List Int) : idot v w = (List.zipWith (· * ·) v w).sum :
 /-! ## C. rounding error (standard model of floating-point arithmetic: `|fl x - x| ≤ u|x|` after every operation; that IEEE
     binary64/32 satisfy it away from overflow/underflow is the trusted fact) -/
 /-- `Dot`, evaluated with rounding after every multiplication and addition, is within `((1+u)^(2n) - 1)·Σ|x_i y_i|` of the exact
-    dot product (n = length): the "within rounding error" clause for the plain accumulation loops.  (The sharper Kahan bound
-    `(2u + O(nu²))·Σ|x_i|` for `Sum` is NOT proved; `sum_eq_real` shows the compensation term is exactly zero over ℝ, and the
-    monitor measures `|result - exact| ≤ 3u·Σ|x_i|` on every generated vector.) -/
+    dot product (n = length): the "within rounding error" clause for the plain accumulation loops.  (For `Sum` see `kahan_rounding` below; the
+    monitor additionally measures `|result - exact| ≤ 3u·Σ|x_i|` on every generated vector.) -/
 theorem dot_rounding [Rnd] (v w : List RR) :
     |(dot v w).val - exactDot v w| ≤ ((1 + Rnd.u) ^ (2 * min v.length w.length) - 1) * absDot v w := Vec.dot_rounding v w
+/-- **Kahan's compensated summation** (`esl_vec_{D,F}Sum`), with rounding after each of the four operations of the loop body, is
+    within `(7u + 19·n·u²)·Σ|x_i|` of the exact sum when `u ≤ 1/64` and `n·u ≤ 1` (binary64: n ≤ 9·10^15): the first-order error
+    does not grow with the length — the "compensated summation within rounding error of the exact sum" clause. -/
+theorem kahan_rounding [Rnd] (v : List RR) (hu : Rnd.u ≤ 1 / 64) (hn : (v.length : ℝ) * Rnd.u ≤ 1) :
+    |(Vec.sum v).val - exactSum v| ≤ (7 * Rnd.u + 19 * v.length * Rnd.u ^ 2) * absSum v := Vec.kahan_rounding v hu hn
 /-- non-vacuity: exact arithmetic is a rounding with `u = 0`; so is "round then perturb by at most u" for any u -/
 example : Rnd := { fl := id, u := 0, u_nonneg := le_refl _, err := fun x => by simp }
+
+/-! ## C. matrices (esl_matrixops.c): the row pointers `A[i] = A[0] + i*N` tile the `M*N` block exactly — every `A[i][j]` with
+    `i < M, j < N` is inside the block, distinct cells are distinct, and every cell of the block is some `A[i][j]`; the flat
+    routines (`Set/Scale/Copy/Max`) are the vector routines on the block -/
+theorem mat_cell_in_block (M N i j : Nat) (hi : i < M) (hj : j < N) : Mat.cell M N i j = some (i * N + j) := Mat.cell_some M N i j hi hj
+theorem mat_cell_inj (N i j i' j' : Nat) (hj : j < N) (hj' : j' < N) (h : i * N + j = i' * N + j') : i = i' ∧ j = j' :=
+  Mat.cell_inj N i j i' j' hj hj' h
+theorem mat_cell_surj (M N k : Nat) (hk : k < M * N) : ∃ i j, i < M ∧ j < N ∧ Mat.cell M N i j = some k := Mat.cell_surj M N k hk
 
 end EaselModel.Props.C20
